@@ -319,17 +319,19 @@ theorem arrivals_discard (w : World) (u : Nat) (h : (w.net.get u).rx.isEmpty = f
     ((userIO w u).users.get u).buf = copyChars (w.users.get u).single (w.net.get u).rx ∧ (userIO w u).overflow = true := by
   simp [userIO, h, hroom]
 
-/-- witness: a user with 1664 buffered bytes (complete commands waiting for their turns) receives one more byte -/
+/-- witness: a user with MAX_TEXT buffered bytes (any length from 1664 on, with the constants of the source) receives one
+    more byte -/
 theorem arrivals_append_Full_false : ¬ arrivals_append_Full := by
   intro h
-  generalize hw : ({ users := [(1, { buf := List.replicate 1664 'a' })], net := [(1, { rx := ['b'] })] } : World) = w at h
+  generalize hw : ({ users := [(1, { buf := List.replicate NV.Gen.C12.maxText 'a' })], net := [(1, { rx := ['b'] })] } : World) = w at h
   have hrx : (w.net.get 1).rx.isEmpty = false := by rw [← hw]; rfl
-  have hbuf : (w.users.get 1).buf = List.replicate 1664 'a' := by rw [← hw]; rfl
+  have hbuf : (w.users.get 1).buf = List.replicate NV.Gen.C12.maxText 'a' := by rw [← hw]; rfl
   have hs : roomShort (w.users.get 1).buf.length = true := by rw [hbuf, List.length_replicate]; decide
   have h1 := h w 1 hrx
   rw [(arrivals_discard w 1 hrx hs).1] at h1
   have := congrArg List.length h1
   rw [List.length_append, hbuf, List.length_replicate] at this
+  have hpos : 0 < NV.Gen.C12.maxText := by decide
   omega
 
 example : firstCmd false ("ab".toList ++ [NUL] ++ "cd".toList ++ [NUL]) =
